@@ -140,7 +140,13 @@ pub fn run(args: &Args) {
         report(&mut o, "gen1=gen2", &dumps[1], &dumps[2], &|_| false);
         report(&mut o, "gen2=gen3", &dumps[2], &dumps[3], &|_| false);
         // single-cell edit on the loaded workbook
-        if let Some(mut b) = gen1_book {
+        // the edit is made on the workbook as loaded from the original file (ids, tables and part names as another producer
+        // chose them) or on the re-saved generation; either way the saved result must be generation 1 plus the edit
+        let on_original = rng.chance(1, 2);
+        if on_original {
+            o.count("edits.on-the-originally-loaded-workbook", 1);
+        }
+        if let Some(mut b) = if on_original { Some(book.clone()) } else { gen1_book } {
             let n = b.get_sheet_count();
             let si = rng.below(n as u64) as usize;
             let existing: Vec<(u32, u32)> = b.get_sheet(&si).map(|ws| ws.get_cell_collection().iter().map(|c| (*c.get_coordinate().get_col_num(), *c.get_coordinate().get_row_num())).collect()).unwrap_or_default();
@@ -161,9 +167,18 @@ pub fn run(args: &Args) {
                 _ => (rng.range(1, 30), rng.range(1, 60)),
             };
             let a1 = helper::coordinate::coordinate_from_index(&pos.0, &pos.1);
+            // a third of the edits also give the cell a number format no other cell uses
+            let restyle = rng.chance(1, 2);
             let edited = guard(|| {
-                b.get_sheet_mut(&si).unwrap().get_cell_mut(pos).set_value_string(format!("EDIT-{}", k));
+                let cell = b.get_sheet_mut(&si).unwrap().get_cell_mut(pos);
+                cell.set_value_string(format!("EDIT-{}", k));
+                if restyle {
+                    cell.get_style_mut().get_number_format_mut().set_format_code(format!("0.0000\"edit{}\"", k));
+                }
             });
+            if restyle {
+                o.count("edits.with-new-number-format", 1);
+            }
             if edited.is_ok() {
                 o.count("edits", 1);
                 let after = save(&b, false).and_then(|x| load(&x)).and_then(|x| dump_book_guarded(&x, Sections::ALL));
